@@ -48,6 +48,7 @@ def all_calls():
     out.append(("burn", ["o2", "o1", "o1"]))
     out += [("reset", []), ("finish", [])]
     out += [("shift", ["o1", "o2", "o2"]), ("shift", ["o1", "o2", "o3"]), ("shift", ["o2", "o2", "o2"]), ("shift", ["o1", "o3", "o2"])]
+    out += [("pulse", ["o1"]), ("pulse", ["o2"])]
     return out
 
 
@@ -67,6 +68,8 @@ def plans(tier, seed):
         [("reset", [])],
         [("drop", ["o1", "o2"]), ("take", ["o1", "o2"]), ("drop", ["o1", "o2"])],  # the same call refused first, applicable later
         [("take", ["o1", "o2"]), ("drop", ["o1", "o2"]), ("take", ["o1", "o2"])],  # ... and applicable, undone, applicable again
+        [("pulse", ["o1"])],
+        [("take", ["o1", "o2"]), ("pulse", ["o1"]), ("pulse", ["o2"])],
         [("shift", ["o1", "o2", "o2"])],  # stays in place: deletes and adds the same fact
         [("take", ["o1", "o2"]), ("shift", ["o1", "o2", "o2"]), ("shift", ["o1", "o2", "o3"])],
         [("shift", ["o1", "o2", "o3"]), ("shift", ["o1", "o3", "o3"]), ("drop", ["o1", "o3"])],
